@@ -2,6 +2,7 @@ import Stackage.Driver.Marshal
 import Stackage.Driver.Traverse
 import Stackage.Model.Alias
 import Stackage.Model.Options
+import Stackage.Model.Policy
 
 namespace Stackage.Driver
 open Stackage
@@ -9,16 +10,18 @@ open Stackage
 def aliasPaths : List (List Int) := [[0], [1], [-1], [0, 0], [1, 0], [0, 1], [2, 0], [1, 1, 0], [0, 0, 0]]
 
 def obsAliasTree (s : Stk) : String :=
-  let u := s.unmarshal
+  -- `Unmarshal()` with the Unmarshalers installed on nested nodes (closure-aware walk): entries and error class
+  let u := s.UnmarshalP closures
+  let ue := match u.2 with | none => "e0" | some n => if n ≥ 1000 then "e1:E?" else s!"e1:E{n}"
   let tr := aliasPaths.map (fun p => match s.traverse closures p with
-    | .ok (v, ok) => s!"{showVal (erase v)}:{b01 ok}"
+    | .ok (v, ok) => s!"{showVal (stripPol (erase v))}:{b01 ok}"
     | .error f => f.toString)
   let lens := s.xs.filterMap (fun v => match convertCondition v with
     | some c => some s!"{c.len}{b01 c.IsNesting}"
     | none => none)
   let nn : Stk := (⟨{ kind := Gen.kind_list, opt := Gen.flag_nnest }, []⟩ : Stk).genericAppend s.xs
   let (dst, okx) := s.transfer interp ⟨{ kind := Gen.kind_list }, []⟩
-  s!"S{hx (s.String closures)} U\{{showVal (erase (.anys u))}} G{b01 s.IsNesting} T\{{" | ".intercalate tr}} L{",".intercalate lens} P{nn.xs.length} X{b01 okx}{dst.xs.length}"
+  s!"S{hx (s.String closures)} U\{{showVal (stripPol (erase (.anys u.1)))}}{ue} G{b01 s.IsNesting} T\{{" | ".intercalate tr}} L{",".intercalate lens} P{nn.xs.length} X{b01 okx}{dst.xs.length}"
 
 def runAlias (payload : String) : String × String × String :=
   match (parseVal (words payload)).1 with
